@@ -94,6 +94,13 @@ TraceReset ==
      /\ pending' = I.pending /\ now' = I.now /\ outcome' = I.outcome /\ obs' = I.obs
      /\ effecting' = I.effecting /\ nextRef' = I.nextRef /\ owner' = I.owner /\ backend' = I.backend
 
+\* every script operation costs at least one instruction unit: the units a record reports bound the fuel
+RECURSIVE UnitsFrom(_, _)
+UnitsFrom(ops, i) == IF i > Len(ops) THEN 0
+                     ELSE (IF ops[i].op = "units" THEN ops[i].n ELSE 0) + UnitsFrom(ops, i + 1)
+UnitsOf(ops) == UnitsFrom(ops, 1)
+Min2(a, b) == IF a < b THEN a ELSE b
+
 IdleRecord(r) == r.consumed = <<>> /\ r.emitted = <<>> /\ r.ops = <<>>
 
 TraceWorker ==
@@ -104,13 +111,20 @@ TraceWorker ==
         /\ k <= Len(cmdQ[w])
         /\ SeqMatch(SubSeq(cmdQ[w], 1, k), R.consumed, CmdMatch)
         /\ IF IdleRecord(R) THEN UNCHANGED vars
-           ELSE \E fuel \in 0..MaxFuel : WorkerStep(w, k, fuel)
+           ELSE \E fuel \in 0..Min2(MaxFuel, UnitsOf(R.ops)) : WorkerStep(w, k, fuel)
         /\ SeqMatch(NewSuffix(evtQ[w], evtQ'[w]), R.emitted, EvtMatch)
         /\ PostW(w, R.post)
 
 TraceEnv ==
   /\ R.k = "env" /\ ~Has(R, "crash")
-  /\ IF R.consumed = <<>> THEN UNCHANGED vars
+  /\ IF R.consumed = <<>> /\ R.cmds = <<>> THEN UNCHANGED vars
+     ELSE IF R.consumed = <<>>
+     THEN \* only process_completions() had something to do
+          /\ EnvCompletions
+          /\ owner' = R.post.owner
+          /\ \A x \in Workers :
+                SeqMatch(NewSuffix(cmdQ[x], cmdQ'[x]), SelectSeq(R.cmds, LAMBDA c : c.w = x),
+                         LAMBDA c, j : CmdMatch(c, j.c))
      ELSE LET w == R.consumed[1].w IN
           /\ Len(R.consumed) = 1
           /\ evtQ[w] # <<>>
